@@ -57,3 +57,20 @@ fn vk_mad_clone_deep<const P: usize>() {
 }
 // @harness vk_mad_clone_deep_p2 props=C05 kind=bounded(period=2) tier=quick
 #[kani::proof] #[kani::unwind(6)] fn vk_mad_clone_deep_p2() { vk_mad_clone_deep::<2>() }
+
+// no hidden state shared between instances: after another instance of the same period was used (past a wrap-around) and
+// dropped, a new instance starts from exactly the documented initial state (all-zero window, zero cursors)
+fn vk_mad_fresh_after_other<const P: usize, const K: usize>() {
+    {
+        let mut a = MeanAbsoluteDeviation::new(P).unwrap();
+        let mut i = 0;
+        while i < K { let _ = a.next(kani::any::<f64>()); i += 1; }
+    }
+    let b = MeanAbsoluteDeviation::new(P).unwrap();
+    assert!(b.index == 0 && b.count == 0 && b.period == P && b.deque.len() == P);
+    assert!(b.sum.to_bits() == 0.0f64.to_bits());
+    let mut j = 0;
+    while j < P { assert!(b.deque[j].to_bits() == 0.0f64.to_bits()); j += 1; }
+}
+// @harness vk_mad_fresh_after_other_p2 props=C05 kind=bounded(period=2,history=3) tier=quick
+#[kani::proof] #[kani::unwind(6)] fn vk_mad_fresh_after_other_p2() { vk_mad_fresh_after_other::<2, 3>() }
